@@ -6,13 +6,14 @@ RULE = ("generated evolutions; for every case the real planner is re-run on the 
 
 
 def parts(chk, res, rows):
-    """The halves of C14 below and above the planner: SQL generation per backend (derived names carry the prefix: Properties/C14_<backend>.v
+    """The halves of C14 below and above the planner: SQL generation per backend, the runtime migrator (coq/mig/Properties/C14_mig.v + the final catalog of real runs under a prefix equals the
+    literal renaming of the run without prefix, version table included) (derived names carry the prefix: Properties/C14_<backend>.v
     + prefix_agrees evaluated inside Coq on every generated migration) and the CLI (`sql` / `log` of a prefixed project print exactly what
     they print for the literally renamed project: coq/cli/Properties/C14_cli.v + the real binary run on both projects)."""
     import importlib, os
     import vflib
     out = {}
-    for mod, fn, gate in (("sqliterun", "c14_part", "C02"), ("pgrun", "c14_part", "C03"), ("mysqlrun", "c14_part", "C04"), ("clirun", "c14_part", "C13")):
+    for mod, fn, gate in (("sqliterun", "c14_part", "C02"), ("pgrun", "c14_part", "C03"), ("mysqlrun", "c14_part", "C04"), ("clirun", "c14_part", "C13"), ("migrun", "c14_part", "C09")):
         if not os.path.exists(os.path.join(vflib.ROOT, "props", gate + ".json")):
             out[mod] = "layer not finished yet (props/%s.json absent)" % gate
             continue
@@ -29,19 +30,21 @@ def parts(chk, res, rows):
             fi = r.get("failing_input")
             chk.violation(vflib.write_replay("C14", ("oracle:%s-prefix" if fi else "theorem:%s-prefix") % mod, {"input": fi, "details": r.get("details")}), not fi)
     chk.cov["parts"] = out
-    # the CLI statement of C14 is pinned in the cli layer
-    if os.path.exists(os.path.join(vflib.ROOT, "coq", "cli", "Properties", "C14_cli.v")):
-        rc, log = vflib.build_layer("cli", targets=vflib.model_targets("cli") + ["Properties/C14_cli.vo"])
+    # the CLI and the runtime statements of C14 are pinned in the cli and mig layers
+    for layer, name in (("cli", "C14_cli"), ("mig", "C14_mig")):
+        if not os.path.exists(os.path.join(vflib.ROOT, "coq", layer, "Properties", name + ".v")):
+            continue
+        rc, log = vflib.build_layer(layer, targets=vflib.model_targets(layer) + ["Properties/%s.vo" % name])
         if rc != 0:
-            chk.violation(vflib.write_replay("C14", "theorem:C14_cli-build", {"layer": "cli", "log_tail": log[-2500:]}), True)
+            chk.violation(vflib.write_replay("C14", "theorem:%s-build" % name, {"layer": layer, "log_tail": log[-2500:]}), True)
             chk.cov["obligations"] += 2
-        else:
-            r = vflib.compile_property("cli", "C14_cli")
-            chk.cov["obligations"] += r["obligations"]
-            chk.cov["discharged"] += r["discharged"]
-            chk.cov["theorems"] = chk.cov.get("theorems", []) + r["theorems"]
-            if r["discharged"] < r["obligations"] or r.get("axioms"):
-                chk.violation(vflib.write_replay("C14", "theorem:C14_cli", {"result": {k: r.get(k) for k in ("obligations", "discharged", "axioms", "failed")}}), True)
+            continue
+        r = vflib.compile_property(layer, name)
+        chk.cov["obligations"] += r["obligations"]
+        chk.cov["discharged"] += r["discharged"]
+        chk.cov["theorems"] = chk.cov.get("theorems", []) + r["theorems"]
+        if r["discharged"] < r["obligations"] or r.get("axioms"):
+            chk.violation(vflib.write_replay("C14", "theorem:%s" % name, {"result": {k: r.get(k) for k in ("obligations", "discharged", "axioms", "failed")}}), True)
 
 
 def run(tier, seed):
